@@ -701,6 +701,23 @@ theorem convAll_last (num : List (Str × Nat)) : ∀ (l : List Ecal.Lex.Tok) (ts
     | nil => simp at h1
     | cons b bs => simpa [List.getLast?_cons_cons] using h1
 
+theorem filter_getLast {α : Type} (p : α → Bool) : ∀ (l : List α) (t : α), l.getLast? = some t → p t = true →
+    (l.filter p).getLast? = some t
+  | [], _, h, _ => by simp at h
+  | [x], t, h, hp => by
+    simp only [List.getLast?_singleton, Option.some.injEq] at h
+    subst h
+    simp [List.filter, hp]
+  | x :: y :: rest, t, h, hp => by
+    have h' : (y :: rest).getLast? = some t := by simpa [List.getLast?_cons_cons] using h
+    have ih := filter_getLast p (y :: rest) t h' hp
+    rw [List.filter_cons (x := x)]
+    split
+    · cases hf : (y :: rest).filter p with
+      | nil => rw [hf] at ih; simp at ih
+      | cons b bs => rw [hf] at ih; simpa [List.getLast?_cons_cons] using ih
+    · exact ih
+
 /-- C03 (source level, by C18's `lexer_always_closes`): for EVERY source text the token list handed
     to the parser is not empty and ends with the EOF token or with the lexer's error token — the
     shape `tokens ++ [EOF]` that `pratt_print` and `parse_sound` speak about is the only one a
@@ -711,7 +728,10 @@ theorem lexed_source_closes (num : List (Str × Nat)) (src : List Nat) (ts : Lis
   obtain ⟨t, hb, hid⟩ := Ecal.Props.C18.lexer_always_closes src
   have hl : (Ecal.Lex.lex src).toList.getLast? = some t := by
     rw [← hb]; simp [Array.back?, List.getLast?_eq_getElem?]
-  obtain ⟨t', h1, h2⟩ := convAll_last num _ ts t h hl
+  have hnc : (!(t.id == Ecal.Lex.tPRECOMMENT || t.id == Ecal.Lex.tPOSTCOMMENT)) = true := by
+    rcases hid with hid | hid <;> rw [hid] <;> decide
+  have hl' := filter_getLast (fun t => !(t.id == Ecal.Lex.tPRECOMMENT || t.id == Ecal.Lex.tPOSTCOMMENT)) _ t hl hnc
+  obtain ⟨t', h1, h2⟩ := convAll_last num _ ts t h hl'
   refine ⟨t', h1, ?_⟩
   simp only [convTok, Option.map_eq_some_iff] at h2
   obtain ⟨k, hk, rfl⟩ := h2
